@@ -141,10 +141,10 @@ class MirDump:
             i += 1
         self.const_inline, self.const_fns = {}, {}
         for l in lines:
-            m = re.match(r'(?:const|static) (.*?): (.*?) = const (.*);$', l)
+            m = re.match(r'(?:const|static) (.*): (.*?) = const (.*);$', l)
             if m: self.const_inline[m.group(1)] = 'const ' + m.group(3)
         for sig, f in self.fns.items():
-            m = re.match(r'(?:const|static) (.*?): (.*) = \{$', sig)
+            m = re.match(r'(?:const|static) (.*): (.*?) = \{$', sig)
             if m: self.const_fns[m.group(1)] = f
         self._src = {}
         for f in self.fns.values():
